@@ -12,7 +12,9 @@ DESIGN_REF = "DESIGN.md §9 C19, §12.C19"
 COQ_TARGETS = ["Properties/C19", "Pins/C19"]
 THEOREMS = [("PdfV.Properties.C19", n) for n in [
     "C19_get_set", "C19_set_ok", "C19_cid_widths", "C19_cid_widths_last_wins", "C19_widths_no_panic",
-    "C19_type0_no_panic", "C19_simple_widths", "C19_utf16_rt", "C19_cmap_read"]]
+    "C19_type0_no_panic", "C19_simple_widths", "C19_utf16_rt", "C19_cmap_read", "C19_cmap_rt", "C19_cmap_write",
+    "C19_cmap_rt_created", "C19_cmap_read_spelled", "C19_lexer_shared", "C19_hexstr_shared",
+    "C19_simple_widths_any", "C19_simple_widths_negative"]]
 ANCHORS = ["font:"]
 MODES = ["widths", "cmap_write", "cmap_read", "cmap_rt", "utf16dec"]
 TRUSTED_BASE = ["coqc 8.16.1 kernel (vm_compute for table lemmas and witnesses; no native_compute)",
@@ -36,7 +38,10 @@ RULE = ("widths: W arrays of 0-12 groups (both forms, lists inline or by referen
         "CMaps: maps of 0-300 entries (runs, isolated codes, supplementary planes, empty strings) through write_cmap "
         "(judged by a strict CMap reader written from the specification), write->read, and conformant CMap texts with both range "
         "forms and spelling variation (hex case, white-space, comments, 1-byte codes, section counts, prologue) through parse_cmap "
-        "and Font::to_unicode; UTF-16BE byte strings; mutated texts (model + no panic).  "
+        "and Font::to_unicode; the spellings of C19_cmap_read_spelled the renderer does not produce (no white-space between delimited tokens, "
+        "odd digit counts, NUL / form feed / comments between operands, sections after endcmap, data ending inside a comment); "
+        "section keywords inside literal strings (finding C19-f); simple fonts with ill-formed dictionaries (FirstChar > LastChar, negative "
+        "or extreme FirstChar, Widths shorter / longer than the range); UTF-16BE byte strings; mutated texts (model + no panic).  "
         "non-trivial = a width case with at least one group or a map/text with at least 2 entries; distinct by full input")
 CASE_TIMEOUT = 20.0
 
@@ -317,7 +322,7 @@ def hostile_cases(rng, tier):
                tags=["cid", "W-by-reference"])
 
 
-def simple_case(rng, subtype, first, ws, fd, missing, codes, tags=()):
+def simple_case(rng, subtype, first, ws, fd, missing, codes, tags=(), last=None):
     font = {"Type": Name("Font"), "Subtype": Name(subtype), "BaseFont": Name("F")}
     extra = {}
     if first is not None:
@@ -325,7 +330,7 @@ def simple_case(rng, subtype, first, ws, fd, missing, codes, tags=()):
     if ws is not None:
         font["Widths"] = [v for v, _ in ws]
         if first is not None:
-            font["LastChar"] = first + len(ws) - 1
+            font["LastChar"] = first + len(ws) - 1 if last is None else last
     if fd:
         d = descriptor(missing[0] if missing is not None else None)
         if fd == "ref":
@@ -363,6 +368,22 @@ def simple_cases(rng, tier):
     yield simple_case(rng, "TrueType", None, None, "inline", num(rng), [0, 1], tags=["no-firstchar"])
     yield simple_case(rng, "Type1", 32, None, "inline", num(rng, "i"), [0, 31, 32, 33], tags=["no-widths"])
     yield simple_case(rng, "Type1", -3, [num(rng) for _ in range(5)], None, None, [0, 1, 2, 3, 100], tags=["negative-firstchar"])
+    # ill-formed dictionaries: /FirstChar > /LastChar, negative /FirstChar, /Widths shorter or longer than the declared
+    # range, extreme codes.  font.rs never reads /LastChar; the table is /Widths placed at FirstChar (WidthProofs.simple_widths_any);
+    # negative FirstChar: model + 'no panic' only
+    shapes = [(70, 65, 2), (70, 65, 0), (65, 70, 2), (65, 70, 0), (65, 66, 6), (0, 255, 3), (255, 0, 1), (32, 31, 95),
+              (-1, 5, 7), (-3, -1, 3), (-2147483648, 0, 2), (-2147483648, -2147483648, 1), (2147483647, 2147483647, 1),
+              (2147483647, 0, 3), (10, -5, 2), (0, -1, 0), (0, 2147483647, 2)]
+    for first, last, n in shapes + [(rng.randrange(-5, 260), rng.randrange(-5, 260), rng.randrange(0, 12))
+                                    for _ in range(12 if tier == "quick" else 300)]:
+        ws = [num(rng) for _ in range(n)]
+        cs = {0, 1, 2, 5, 31, 32, 64, 65, 66, 67, 69, 70, 71, 72, 254, 255, 256, 65535, 2147483646, 2147483647, 2147483648, 4294967295}
+        if first >= 0:
+            cs |= {c for c in (first - 1, first, first + 1, first + n - 1, first + n, first + n + 1) if 0 <= c < 2 ** 32}
+        if 0 <= last < 2 ** 32 - 1:
+            cs |= {last, last + 1}
+        yield simple_case(rng, rng.choice(["Type1", "TrueType"]), first, ws, rng.choice([None, "inline", "ref"]),
+                          rng.choice([None, num(rng, "i")]), sorted(cs), tags=["illformed-range"], last=last)
     # fonts of other subtypes have no width table
     for st in ("Type3", "MMType1"):
         font = {"Type": Name("Font"), "Subtype": Name(st), "BaseFont": Name("F"), "FirstChar": 0, "Widths": [1, 2]}
@@ -497,6 +518,32 @@ def text_cases(rng, tier):
             st = Stream({}, text)
         font = {"Type": Name("Font"), "Subtype": Name("Type1"), "BaseFont": Name("F"), "ToUnicode": Ref(7)}
         yield Case("font_tounicode", [font_file(font, {7: st}), b"4"], expect=ok(*S.enc_map(S.denote(secs))), model=False, tags=["to_unicode"])
+    # spellings covered by C19_cmap_read_spelled that the renderer above does not produce
+    for i in range(12 if tier == "quick" else 300):
+        secs = random_sections(rng)
+        sp = S.Spelling(rng)
+        body = S.render(secs, sp, header=rng.random() < 0.5, footer=False, counts=rng.random() < 0.5)
+        k = i % 4
+        if k == 0:      # sections after endcmap are not read
+            text = body + b"endcmap\n1 beginbfchar\n<0001> <0041>\nendbfchar\n"
+            tag = "after-endcmap"
+        elif k == 1:    # the data end inside a comment
+            text = body + b"% the end"
+            tag = "open-comment"
+        elif k == 2:    # no white-space at all where delimiters separate the tokens; odd digit count in a one-byte code
+            text = body + b"beginbfchar<4><0041><5 ><00 42>endbfchar beginbfrange<6><61>[<0043><0044>]<7><71><0045>endbfrange"
+            secs = secs + [("char", [S.BfChar(0x40, "A"), S.BfChar(0x50, "B")]),
+                           ("range", [S.BfRangeA(0x60, 0x61, ["C", "D"]), S.BfRangeS(0x70, 0x71, "E")])]
+            tag = "no-space"
+        else:           # NUL and form feed as separators, comments between the operands
+            text = body + b"beginbfchar\x00<0001>%c\r<0041>\x0c<0002>\x00\x0c%%\n%\n<0042>\tendbfchar\x00"
+            secs = secs + [("char", [S.BfChar(1, "A"), S.BfChar(2, "B")])]
+            tag = "nul-ff"
+        yield read_case(secs, text, ["spelled", tag])
+    # finding C19-f: a section keyword inside a PostScript literal string of the prologue is acted on
+    for pre, post in ((b"", b""), (S.HEADER, S.FOOTER), (b"/Note ", b" def\n")):
+        text = pre + b"(beginbfchar <0041> <0042> endbfchar)" + post
+        yield Case("cmap_read", [text], expect=ok(*S.enc_map(S.read_strict(text))), tags=["read", "kw-in-string"], kind="malformed")
     # mutated texts: outside the property's domain; judged by the model and by 'no panic'
     for i in range(60 if tier == "quick" else 2500):
         secs = random_sections(rng)
@@ -580,6 +627,8 @@ def nontrivial(c):
 
 
 def classify(case, impl, model):
+    if case.mode == "cmap_read" and "kw-in-string" in case.tags:
+        return "C19-f"
     return None
 
 
@@ -590,6 +639,8 @@ def witness_case(f, c):
     elif c.mode == "cmap_write":
         m = dict(S.dec_entry(x) for x in c.fields)
         c.check = write_check(m)
+    elif c.mode == "cmap_read":
+        c.expect = ok(*S.enc_map(S.read_strict(c.fields[0])))
     elif c.mode == "widths" and "expect_hex" in f.get("witness", {}):
         c.expect = ok(*[bytes.fromhex(x) for x in f["witness"]["expect_hex"]])
     return c
